@@ -339,7 +339,10 @@ func (c *c08) exec(t *testing.T, prog *hx.Program, dec *simrt.Decider, verbose b
 	oc := runH1(t, prog, dec, verbose, func(h *h1) {
 		c.h1 = h
 		seg := prog.Param("seg", 100)
-		h.opts = Options{Path: h.dir, MaxSegmentBytes: seg, Compact: true, CompactMaxGoroutines: int(prog.Param("workers", 2)), MaxLogMessages: prog.Param("ret_msgs", 0)}
+		h.opts = Options{Path: h.dir, MaxSegmentBytes: seg, Compact: true, CompactMaxGoroutines: int(prog.Param("workers", 2)), MaxLogMessages: prog.Param("ret_msgs", 0),
+			// (cleans are the harness's own, judged one by one; with time skips the log's own tick would
+			// otherwise compact behind the oracle's back after 5 simulated minutes)
+			CleanerInterval: 1000 * time.Hour}
 		if _, err := h.open(); err != nil {
 			h.oc.Trouble = "open: " + err.Error()
 			return
